@@ -145,6 +145,31 @@ impl SecondaryStorage {
             }
         }
 
+        if !options.disable_all_disk_operation {
+            // vacuum unused DVs: a DELETE interrupted before its manifest entry leaves a DV file
+            // behind whose id is handed out again, and writing that DV (`create_new`) would fail
+            let mut dir = fs::read_dir(options.path.join("dv")).await?;
+            while let Some(entry) = dir.next_entry().await? {
+                let name = entry.file_name();
+                let Some(ids) = name.to_str().and_then(|name| name.strip_suffix(".dv")) else {
+                    continue;
+                };
+                let ids = ids.split('_').collect::<Vec<_>>();
+                if let [table_id, rowset_id, dv_id] = ids[..]
+                    && let (Ok(table_id), Ok(rowset_id), Ok(dv_id)) = (
+                        table_id.parse::<u32>(),
+                        rowset_id.parse::<u32>(),
+                        dv_id.parse::<u64>(),
+                    )
+                    && !dvs_to_open.contains_key(&(table_id, rowset_id, dv_id))
+                {
+                    fs::remove_file(entry.path())
+                        .await
+                        .expect("failed to vacuum unused DVs");
+                }
+            }
+        }
+
         // TODO: parallel open
 
         let tables = engine.tables.read().clone();
